@@ -63,6 +63,14 @@ CHECKS = {
             "readers. UniqueId::now() is hammered from 16 threads (a stress sample, not schedule control). The XML reader defect is an open finding.",
             "trusts: the validity predicate; concurrency part is a stress sample only",
             "DESIGN.md 2/C09-C12"),
+    "C13": ("fault_enumeration",
+            "mutation fuzzing with the oracle in the target (worker subprocesses + allocation-tracking allocator), exhaustive truncation points, generated read partitions with injected EINTR, write failure injected at every output offset",
+            "(1) proptest-generated mutation sequences over valid binary/XML/attribute inputs are decoded in sandboxed worker processes; any panic, abort, single allocation "
+            "beyond max(64 MiB, 4096 x input) or reproducible time-out is a violation keyed by site. (2) every strict prefix of generated valid files must be rejected - all cut points "
+            "enumerated per file. (3) generated read() partitions incl. one-byte reads and ErrorKind::Interrupted must not change the decoded DOM / the accept-reject verdict. (4) a sink "
+            "that fails after k bytes, for every k below the output length, must yield Err. The XML reader's per-Item recursion (stack overflow on ~20k nested Items) is an open finding.",
+            "trusts: the 20 s watchdog as the definition of a hang; the allocator limit as the executable form of 'memory unrelated to the input size'",
+            "DESIGN.md 2/C13"),
 }
 
 NOT_YET = {
